@@ -134,6 +134,7 @@ class Z3Ctx:
         if name == 'exp':
             self.axioms.append(e > 0)
             self.axioms.append(e >= 1 + a[0])
+            self.axioms.append(z3.Implies(a[0] == 0, e == 1))
             for (m, em) in prev:
                 am = self.cache[id(m.args[0])]
                 self.axioms.append(z3.Implies(am < a[0], em < e))
@@ -390,11 +391,23 @@ class Pool:
                     except (EOFError, OSError):
                         results[w[2][0]] = ('unknown', None, now - w[3], 'worker died', 'none')
                         self._restart(i)
+                        key, res = w[2][0], results[w[2][0]]
                     w = self.workers[i]
                     w[2] = None
                     active -= 1
                     if progress:
                         progress(len(results))
+                    # racing portfolios 'name#A' / 'name#B': a decisive answer cancels the siblings
+                    if '#' in key and res[0] in ('unsat', 'sat'):
+                        grp = key.rsplit('#', 1)[0]
+                        for pj in [j for j in pending if j[0].rsplit('#', 1)[0] == grp]:
+                            pending.remove(pj)
+                            results[pj[0]] = ('unknown', None, 0.0, 'cancelled: sibling portfolio decided', 'none')
+                        for j2, w2 in enumerate(self.workers):
+                            if w2[2] is not None and '#' in w2[2][0] and w2[2][0].rsplit('#', 1)[0] == grp:
+                                results[w2[2][0]] = ('unknown', None, now - w2[3], 'cancelled: sibling portfolio decided', 'none')
+                                self._restart(j2)
+                                active -= 1
                 elif now - w[3] > w[4]:
                     results[w[2][0]] = ('unknown', None, now - w[3], 'hard timeout (worker killed)', 'none')
                     self._restart(i)
